@@ -70,7 +70,9 @@ func (s Set[T]) Has(val T) bool {
 func (s Set[T]) Copy() Set[T] {
 	ret := NewSet(s.rules)
 	for k, v := range s.vals {
-		ret.vals[k] = v
+		// Each set needs its own bucket slices, because Add appends to them
+		// in place.
+		ret.vals[k] = append(make([]T, 0, len(v)), v...)
 	}
 	return ret
 }
